@@ -15,7 +15,7 @@ from ..models.mpt import BLANK_ROOT, RefMPT, nibbles_of, rlp_any
 
 ID = "C03"
 LEVEL = "exploration"
-RUNS = {"quick": 1500, "thorough": 30000}
+RUNS = {"quick": 5000, "thorough": 60000}
 RULE = (
     "each run: a non-pruning trie with a seeded history of 4-30 mutations (every root and its contents remembered), a "
     "foreign trie over related keys, and 10-40 proof exchanges at seeded points of the history: the prover calls "
